@@ -21,6 +21,7 @@ def opsOfHist (h : String) : Except String (List (Op Nat)) :=
     | 'f' :: rest => do let r ← go rest k; pure (Op.flush :: r)
     | 'c' :: rest => do let r ← go rest k; pure (Op.close :: r)
     | 'x' :: rest => do let r ← go rest k; pure (Op.exit :: r)
+    | 'X' :: rest => do let r ← go rest k; pure (Op.exit :: r)      -- a with-block left by an exception: the same `__exit__`
     | 'e' :: rest => do let r ← go rest (k + 1); pure (Op.bad false :: r)    -- a refused write (consumes a record index)
     | 'E' :: rest => do let r ← go rest (k + 1); pure (Op.bad true :: r)     -- ... of a record type that was new
     | c :: _ => throw s!"bad history character {c}"
